@@ -1,0 +1,37 @@
+//go:build verif
+
+// Contracts for the deductive verifier in /verif (govc). Comment-only file:
+// it is compiled only under the build tag `verif` and contains no code.
+//
+// Syntax: see /verif/DESIGN.md section 2.2. Spec functions and contracts of
+// external (standard library) functions live in /verif/contracts/*.spec.
+
+package bcl
+
+// ---------------------------------------------------------------------------
+// encoding.go: byte-level encodings (bit-vector mode)
+//
+//@ group C09,C14
+//
+//@ func u16ToBytes
+//@   mode bv
+//@   requires len(p) >= 2
+//@   ensures big_endian: uint16(p[0])*256 + uint16(p[1]) == x
+//@   ensures rest_unchanged: forall i int :: 2 <= i && i < len(p) ==> p[i] == old(p[i])
+//@   modifies p[0..2)
+//
+//@ func u16FromBytes
+//@   mode bv
+//@   requires len(b) >= 2
+//@   ensures big_endian: result == uint16(b[0])*256 + uint16(b[1])
+//@   modifies nothing
+//
+//@ func i64ToU64
+//@   mode bv
+//@   ensures twos_complement: result == uint64(x)
+//@   modifies nothing
+//
+//@ func u64ToI64
+//@   mode bv
+//@   ensures twos_complement: result == int64(x)
+//@   modifies nothing
